@@ -3,6 +3,7 @@ package props
 import (
 	"bytes"
 	"fmt"
+	"io"
 	"sync"
 	"sync/atomic"
 
@@ -129,7 +130,7 @@ func C18(tier string) {
 	if tier == "thorough" {
 		tails = append(tails, 2, 3, 8191, 8192, 8193, 65535, 65537, 1<<30)
 	}
-	r.Rule(fmt.Sprintf("well-formed PNG/JPEG/WebP files built from descriptions (no ICC; ICC before / after / between >64 KiB of other ancillary data; JPEG chunks in every order and split around SOF; iCCP name with a Latin-1 byte) whose pixel payload is a virtual zero tail of %v bytes produced by the counting source; each through the specific loader and autometa under: all at once, uniform 1/7/4096-byte delivery with and without EOF piggy-backed, and every reader-answer sequence with <= 2 deviations (thorough <= 3); every ordered pair of those files loaded one after the other in one process, the first one once and eight times in a row (state learnt from a batch must not make the next load read more); the repository images likewise (need = what a loader given only that prefix still reports identically, found by bisection); states = choice points, transitions = answers taken", tails))
+	r.Rule(fmt.Sprintf("well-formed PNG/JPEG/WebP files built from descriptions (no ICC; ICC before / after / between >64 KiB of other ancillary data; JPEG chunks in every order and split around SOF; iCCP name with a Latin-1 byte) whose pixel payload is a virtual zero tail of %v bytes produced by the counting source; each through the specific loader and autometa under: all at once, uniform 1/7/4096-byte delivery with and without EOF piggy-backed, and every reader-answer sequence with <= 2 deviations (thorough <= 3); every ordered pair of those files loaded one after the other in one process, the first one once and eight times in a row (state learnt from a batch must not make the next load read more); every file at three more sizes (0.1, 0.6, 1.2 MB of pixel data) from sources that also offer Seek and, like *bytes.Reader, ReadAt/ReadByte/WriteTo/Len (all bytes handed out by any method are counted); the repository images likewise (need = what a loader given only that prefix still reports identically, found by bisection); states = choice points, transitions = answers taken", tails))
 	r.Assume("need(file) comes from the generator: end of the iCCP chunk or of the IDAT chunk header (PNG); end of the later of SOF / last ICC chunk, else of the SOS header (JPEG); byte 30 / 25 / end of ICCP data (WebP)")
 	bound := 2
 	if tier == "thorough" {
@@ -264,6 +265,55 @@ func C18(tier string) {
 		})
 	}
 
+	// sources with more capabilities than Read: a loader may not use Seek, ReadAt,
+	// ReadByte or WriteTo to pull the pixel data either (file sizes on both sides
+	// of 1 MiB; everything the source hands out by any method is counted)
+	{
+		var capExecs atomic.Int64
+		type cj struct {
+			c    Case
+			tail int
+		}
+		var cjobs []cj
+		for _, t := range []int{100000, 600000, 1200000} {
+			for _, c := range c18Files(t) {
+				if len(c.Data)+t > 4<<20 {
+					continue
+				}
+				cjobs = append(cjobs, cj{c, t})
+			}
+		}
+		r.Par(ev.Workers(), func(shard, n int) {
+			for ji := shard; ji < len(cjobs); ji += n {
+				c, tail := &cjobs[ji].c, cjobs[ji].tail
+				need := int64(c.Info.Need)
+				full := append(append([]byte{}, c.Data...), make([]byte, tail)...)
+				for _, l := range []*loaderFn{loaderFor(c.Info.Format), &loaders[3]} {
+					whole, _ := load(l, bytes.NewReader(full))
+					for _, kind := range []string{"ReadSeeker", "bytes.Reader-like"} {
+						cs := &countingSeeker{r: bytes.NewReader(full)}
+						var src io.Reader = cs
+						if kind == "bytes.Reader-like" {
+							src = &countingAll{countingSeeker: cs}
+						}
+						o, _ := load(l, src)
+						capExecs.Add(1)
+						if cs.delivered > need+65536 && !r.Seen("over-read-capable-source/"+l.Name) {
+							r.Violate("over-read-capable-source/"+l.Name, fmt.Sprintf("%s.Load of %s (%d bytes in all) from a %s source: %d bytes were taken from the source (Read, ReadAt, ReadByte, WriteTo together); the last needed structure ends at %d, so at most %d may be taken", l.Name, c.Name, len(full), kind, cs.delivered, need, need+65536),
+								map[string]interface{}{"file": c.Name, "tail": tail, "need": need, "loader": l.Name, "source": kind, "delivered": cs.delivered}, nil)
+						}
+						if !o.equal(whole) {
+							r.Violate("capable-source-differs/"+l.Name, fmt.Sprintf("%s.Load of %s from a %s source gives [%s], from a plain reader [%s]", l.Name, c.Name, kind, o, whole), nil, nil)
+						}
+					}
+				}
+			}
+		})
+		mu.Lock()
+		total.Executions += capExecs.Load()
+		mu.Unlock()
+	}
+
 	// repository images: need found by bisection on the prefix length
 	for _, c := range repoImages() {
 		c := c
@@ -322,3 +372,45 @@ func checkICCOutcome(r *ev.Run, c *Case, l *loaderFn, o outcome, key string) {
 		r.Violate(key, fmt.Sprintf("%s.Load of %s: %s", l.Name, c.Name, bad), map[string]interface{}{"file": c.Name, "loader": l.Name}, nil)
 	}
 }
+
+// countingSeeker is an io.ReadSeeker that counts every byte it hands out.
+type countingSeeker struct {
+	r         *bytes.Reader
+	delivered int64
+}
+
+func (c *countingSeeker) Read(p []byte) (int, error) {
+	n, err := c.r.Read(p)
+	c.delivered += int64(n)
+	return n, err
+}
+
+func (c *countingSeeker) Seek(off int64, whence int) (int64, error) { return c.r.Seek(off, whence) }
+
+// countingAll adds the other methods of *bytes.Reader.
+type countingAll struct{ *countingSeeker }
+
+func (c *countingAll) ReadAt(p []byte, off int64) (int, error) {
+	n, err := c.r.ReadAt(p, off)
+	c.delivered += int64(n)
+	return n, err
+}
+
+func (c *countingAll) ReadByte() (byte, error) {
+	b, err := c.r.ReadByte()
+	if err == nil {
+		c.delivered++
+	}
+	return b, err
+}
+
+func (c *countingAll) UnreadByte() error { c.delivered--; return c.r.UnreadByte() }
+
+func (c *countingAll) WriteTo(w io.Writer) (int64, error) {
+	n, err := c.r.WriteTo(w)
+	c.delivered += n
+	return n, err
+}
+
+func (c *countingAll) Len() int    { return c.r.Len() }
+func (c *countingAll) Size() int64 { return c.r.Size() }
